@@ -188,7 +188,8 @@ func readCurrentRegex(filePath string, ruleId string, chainOffset uint8) string 
 
 	lines := bytes.Split(contents, []byte("\n"))
 
-	idRegex := regexp.MustCompile(fmt.Sprintf("id:%s", ruleId))
+	// match the complete id, in rule text only (not in comments)
+	idRegex := regexp.MustCompile(fmt.Sprintf(`^\s*(?:[^#\s].*)?\bid:%s(?:\D|$)`, ruleId))
 	index := 0
 	var line []byte
 	foundRule := false
